@@ -6,6 +6,7 @@ Driver for the C20 correspondence.  One request per line, fields separated by on
 encoding of `Proto` (`-` = empty), lists of strings `|`-separated (`!` = empty list):
 
   `esc <s>` / `escstd <s>` / `unesc <s>`                  → encoded string
+  `escval <0|1> <s>`                                      → `escape(value)` for a plain (0) / Markup (1) value with text s
   `tagid <comps> <major> <minor> <hps>`                   → `filter_tag_id` of a composite
   `tagidarr <str(element_type)>`                          → `filter_tag_id` of an array
   `url <comps> <major> <minor> <hps>` / `urlold …`        → `filter_url_from_type` (after / before the fix)
@@ -140,6 +141,7 @@ def orBad (o : Option String) : String := o.getD "bad-op"
 def answer (line : String) : String :=
   match line.splitOn " " with
   | ["esc", s] => orBad do pure (encodeStr (escape (← decodeStr s)))
+  | ["escval", m, s] => orBad do pure (encodeStr (escapeVal ⟨← decBool m, ← decodeStr s⟩))
   | ["escstd", s] => orBad do pure (encodeStr (escapeStd (← decodeStr s)))
   | ["unesc", s] => orBad do pure (encodeStr (unescape (← decodeStr s)))
   | ["tagid", c, ma, mi, h] => orBad do pure (encodeStr (tagId (← mkType c ma mi h)))
